@@ -53,6 +53,66 @@ def seq(ctor, out, skip):
     return r
 
 
+def _assigns(node, name):
+    """does the tree assign / increment the variable `name`?"""
+    if isinstance(node, tuple):
+        if node[:1] == ('assign',) and node[2] == ('id', name):
+            return True
+        if node[:1] in (('un',), ('post',)) and len(node) >= 3 and node[1] in ('++', '--') and node[2] == ('id', name):
+            return True
+        return any(_assigns(x, name) for x in node)
+    if isinstance(node, list):
+        return any(_assigns(x, name) for x in node)
+    return False
+
+
+def index_to_range(st, bounds_of):
+    """for (T i = 0; i < N; ++i) { auto[&] x = C[i]; REST }   with N a spelling of C.size()  (bounds_of(C)), i not written by REST
+       ==>   T i = 0; for (x : C) { REST; ++i; }      (what the function was before such a rewrite; same visits, same i)"""
+    if isinstance(st, list):
+        out = []
+        for x in st:
+            r = index_to_range(x, bounds_of)
+            out.extend(r if isinstance(r, list) else [r])
+        return out
+    if not isinstance(st, tuple):
+        return st
+    if st[0] == 'block':
+        return ('block', index_to_range(st[1], bounds_of))
+    if st[0] == 'rangefor':
+        return st[:3] + (index_to_range(st[3], bounds_of),)
+    if st[0] == 'if':
+        return st[:3] + (index_to_range(st[3], bounds_of), index_to_range(st[4], bounds_of) if st[4] is not None else None)
+    if st[0] == 'for':
+        body = index_to_range(st[4], bounds_of)
+        st = st[:4] + (body,)
+        if (st[1] and st[1][0] == 'decl' and len(st[1][2]) == 1 and st[1][2][0][1] == ('num', 0) and st[2] and st[2][0] == 'bin'
+                and st[2][1] in ('<', '!=')):
+            i = st[1][2][0][0]
+            b = body_of(body)
+            if (st[2][2] == ('id', i) and st[3] in (('un', '++', ('id', i)), ('post', '++', ('id', i)), ('assign', '+=', ('id', i), ('num', 1)))
+                    and b and b[0][0] == 'decl' and len(b[0][2]) == 1 and b[0][2][0][1] is not None and b[0][2][0][1][0] == 'index'
+                    and b[0][2][0][1][2] == ('id', i) and re.sub(r'\s|const', '', b[0][1]) in ('auto', 'auto&', 'auto*')):
+                C = b[0][2][0][1][1]
+                if st[2][3] in bounds_of(C) and not _assigns(b[1:], i) and not mc._mentions(b[1:], 'continue') and not mc._mentions(b[1:], 'break'):
+                    return [st[1], ('rangefor', b[0][2][0][0], C, ('block', b[1:] + [('expr', ('un', '++', ('id', i)))]))]
+        return st
+    return st
+
+
+def _assigns_member(node, member):
+    if isinstance(node, tuple):
+        if node[:1] == ('assign',):
+            t = node[2]
+            while isinstance(t, tuple) and t[:1] == ('index',):
+                t = t[1]                       # x[i] = ...  writes x
+            if isinstance(t, tuple) and t[:1] == ('member',) and t[2] == member:
+                return True
+        return any(_assigns_member(x, member) for x in node)
+    if isinstance(node, list):
+        return any(_assigns_member(x, member) for x in node)
+    return False
+
 class Groups:
     def __init__(self, arity_names, groups):
         self.arity_names = arity_names
@@ -179,6 +239,7 @@ class Entries:
         self.arity_names = arity_names
         self.groups = groups
         self.mi_names = set(mi_names)      # const locals holding &m - &methods[0]
+        self.fields = None                 # the members of vtbl_entry, in declaration order
 
     def bad(self, msg, node):
         raise mc.Unsupported('build_dispatch_tables (v-table entries): %s: %s' % (msg, mc.show(node)[:300]))
@@ -191,6 +252,12 @@ class Entries:
         if not (st[2] and st[2][0] == 'bin' and st[2][1] in ('<', '!=') and st[2][2] == ('id', dim) and st[2][3] in ok_bound and st[3] == ('un', '++', ('id', dim))):
             self.bad('the loop over the dimensions does not run from 0 to the arity', st[:4])
         b = body_of(st[4])
+        SLOT = ('index', ('member', M, 'slots', False), ('id', dim))
+        hoisted = [x for x in b if x[0] == 'decl' and x[1].startswith('const') and len(x[2]) == 1 and x[2][0][1] == SLOT]
+        if hoisted:        # const std::size_t slot = m.slots[dim];   (m.slots is not written by this loop: checked below)
+            b = mc._subst_ids([x for x in b if x not in hoisted], {x[2][0][0]: SLOT for x in hoisted})
+            if mc._mentions(b, 'slots') and any(_assigns_member(x, 'slots') for x in b):
+                self.bad('m.slots is written inside the loop that reads it', st[4])
         if not (len(b) == 2 and b[0][0] == 'decl' and len(b[0][2]) == 1 and b[0][2][0][1] == ('num', 0) and b[1][0] == 'rangefor'
                 and isinstance(b[1][1], tuple) and len(b[1][1]) == 2 and b[1][2] == ('index', ('id', self.groups), ('id', dim))):
             self.bad('the body is no longer `group_num = 0; for (auto& [mask, group] : groups[dim]) {...}`', st[4])
@@ -214,6 +281,10 @@ class Entries:
                 ('expr', ('assign', '=', ('member', ent, 'group_index', False), ('id', gn)))}
         alt_mi = ('expr', ('assign', '=', ('member', ent, 'method_index', False), ('bin', '-', ('un', '&', M), call0(('id', 'methods'), 'data'))))
         canon_mi = ('expr', ('assign', '=', ('member', ent, 'method_index', False), ('bin', '-', ('un', '&', M), ('un', '&', ('index', ('id', 'methods'), ('num', 0))))))
+        if len(wb) == 1 and wb[0][0] == 'expr' and wb[0][1][:3] == ('assign', '=', ent) and wb[0][1][3][0] == 'construct' \
+                and wb[0][1][3][1] == 'vtbl_entry' and len(wb[0][1][3][2]) == 3 and self.fields == ['method_index', 'vp_index', 'group_index']:
+            # entry = vtbl_entry{a, b, c};   an aggregate: the members in declaration order (read from the struct)
+            wb = [('expr', ('assign', '=', ('member', ent, f, False), v)) for f, v in zip(self.fields, wb[0][1][3][2])]
         alts = [alt_mi] + [('expr', ('assign', '=', ('member', ent, 'method_index', False), ('id', nm))) for nm in self.mi_names]
         got = {canon_mi if x in alts else x for x in wb}
         if len(wb) != 3 or got != want:
@@ -252,7 +323,12 @@ def main():
         if groups is None:
             raise mc.Unsupported('build_dispatch_tables: no `std::vector<group_map> groups`')
         # the block that fills the groups: the first statement after the declaration
-        gtext = Groups(arity_names, groups).stmts([lb[gi]])
+        def bounds_of(C):
+            b = [call0(C, 'size')]
+            if C == ('member', M, 'vp', False):
+                b += [ARITY] + [('id', a) for a in arity_names]
+            return b
+        gtext = Groups(arity_names, groups).stmts(index_to_range([lb[gi]], bounds_of))
         if not gtext.startswith('(GForParams'):
             raise mc.Unsupported('build_dispatch_tables: the statement after the declaration of `groups` is no longer the loop that fills them')
         # the loop that writes the v-table entries: the for statement whose body walks groups[dim]
@@ -261,7 +337,10 @@ def main():
             raise mc.Unsupported('build_dispatch_tables: expected exactly one loop that writes v-table entries, found %d' % len(ents))
         MI = ('bin', '-', ('un', '&', M), ('un', '&', ('index', ('id', 'methods'), ('num', 0))))
         mi_names = [st[2][0][0] for st in lb if st[0] == 'decl' and st[1].startswith('const') and len(st[2]) == 1 and st[2][0][1] == MI]
-        etext = Entries(arity_names, groups, mi_names).loop(ents[0])
+        E = Entries(arity_names, groups, mi_names)
+        fm = re.search(r'struct\s+vtbl_entry\s*\{\s*std::size_t\s+([\w\s,]+);\s*\}', src)
+        E.fields = [x.strip() for x in fm.group(1).split(',')] if fm else None
+        etext = E.loop(ents[0])
         # nothing else may write `groups` or a v-table
         for st in lb[gi + 1:]:
             if st is ents[0]:
